@@ -94,6 +94,7 @@ Proof.
   intros Hb Hne. simpl.
   set (v0 := match get_val s a with Some v => v | None => _ end).
   destruct (negb (v_status v0 =? 0)%N); [discriminate|].
+  destruct (match aget (sinfo s) a with Some si => si_tomb si | None => false end); [discriminate|].
   destruct (Z.ltb_spec amt (p_min_stake (pp s))); [discriminate|].
   destruct (Z.ltb_spec (bal s a) amt); [discriminate|].
   set (s1 := match get_val s a with Some _ => s | None => _ end).
